@@ -4,7 +4,7 @@
 #pragma once
 #include "nmtools/array/ndarray.hpp"
 #include "nmtools/array/index/ndindex.hpp"
-#include "nmtools/utility/apply_at.hpp"
+#include "nmtools/utility/at.hpp"
 #include "nmtools/utility/unwrap.hpp"
 #include "nmtools/utility/has_value.hpp"
 #include "common.hpp"
@@ -115,14 +115,14 @@ inline std::string with_list(const std::string& kind, const std::vector<ll>& v, 
     if (kind == "arr") {
         switch (n) {
             case 1: return f(arr_of<T,1>(v)); case 2: return f(arr_of<T,2>(v)); case 3: return f(arr_of<T,3>(v));
-            case 4: return f(arr_of<T,4>(v)); case 5: return f(arr_of<T,5>(v)); case 6: return f(arr_of<T,6>(v));
+            case 4: return f(arr_of<T,4>(v));
             default: return "unsupported";
         }
     }
     if (kind == "tup") {
         switch (n) {
             case 1: return f(tup_of<T,1>(v)); case 2: return f(tup_of<T,2>(v)); case 3: return f(tup_of<T,3>(v));
-            case 4: return f(tup_of<T,4>(v)); case 5: return f(tup_of<T,5>(v)); case 6: return f(tup_of<T,6>(v));
+            case 4: return f(tup_of<T,4>(v));
             default: return "unsupported";
         }
     }
